@@ -40,6 +40,8 @@ CONSTANTS KPublished, KLoader,
           Styles,      \* how the unknown key is spelled: "fresh" (Unknown itself), "case" (a declared key of the
                        \* same node with its first letter in upper case: `Passes`) - both are outside the language
           MaxPos,      \* a rule entry is tried at positions 0..MaxPos of a list of MaxPos+1 rules
+          MaxSteps,    \* longest walk (mapping nodes, root included); 2 = root and the entries of its lists, which is
+                       \* what the quick tier uses to try an EMPTY rule at every position among valid rules
           Slice, NSlices \* quick tier: only every NSlices-th member of a rule union is entered (NSlices = 1: all)
 
 (* "rule entry": an element of the rule lists of the two transformation files   *)
@@ -134,6 +136,7 @@ Descend(k) ==
   /\ Growing /\ P.kind = "map" /\ L.kind = "map"
   /\ k \in KeySet(P) \cup KeySet(L)
   /\ InSlice(k)
+  /\ Len(steps) < MaxSteps
   /\ UNCHANGED <<file, inj, style>>
   /\ IF k \notin KeySet(L)
      THEN leaf' = [k |-> k, why |-> "only-published", pub |-> Child(P, k), ldr |-> ""] /\ UNCHANGED <<steps, pos>>
